@@ -15,6 +15,15 @@ CLAIMED = {
          "linearizability of the recompute is residue). Interface-method contracts Role.GetState/GetStatus/GetRoles are assumed for all "
          "implementations; mutexes treated as no-ops on data; STATUS_PRODUCT assumed unmodified after init (checked by a closed-world scan).",
          "DESIGN.md §6 C11"),
+ "C20": ("Proof of the four-step fallback of resolveComponentQuery for all 16 existence patterns at once (existence is an uninterpreted "
+         "predicate of the path, so the patterns are symbolic, not enumerated): result is the first existing of (rt,role),(ANY,role),(rt,any),(ANY,any), "
+         "none => error and nil, a resolved path always exists; plus contracts of queryToAbsPath, Query.Raw/AbsoluteRaw (string built from exactly "
+         "component/runtype-name/role/entry) and WithFallbackRunType/RoleName (field-wise, fresh object, frame).",
+         "Store content assumed constant during one resolution (ROSource.Exists is an assumed pure contract). Strings are an uninterpreted sort with "
+         "uninterpreted concatenation (sufficient: spec and code build the path by the same concatenations). NOT decided here: the regular-expression "
+         "parse/print round trip of query strings (regexp engine: outside the verifier's subset) and payload templating (template engine, reflection) - "
+         "those two clauses of the statement are not applicable to this technique.",
+         "DESIGN.md §6 C20"),
 }
 
 NOT_APPLICABLE = {
